@@ -65,10 +65,14 @@ def prelude(cfg):
     return ""
 
 
-# differential harnesses whose two-tree formula does not finish within the quick cap on cvc5, z3 or the SAT reachability run (decided only in the thorough tier, cap 900 s)
+# differential harnesses whose two-tree formula does not finish within the caps on cvc5, z3 or the SAT reachability run (not claimed in either tier; listed under `skipped`)
 HEAVY = set("vec3_any_orthonormal_vector vec3_any_orthonormal_pair vec3a_any_orthonormal_vector vec3a_any_orthonormal_pair dvec3_any_orthonormal_vector dvec3_any_orthonormal_pair "
             "quat_rotate_towards quat_slerp dquat_look_to_rh dquat_rotate_towards dquat_lerp mat3_to_euler mat3a_to_euler mat4_to_scale_rotation_translation mat4_to_euler dmat3_to_euler "
             "dmat4_to_scale_rotation_translation dmat4_to_euler affine3a_to_scale_rotation_translation daffine3_to_scale_rotation_translation quat_look_to_rh quat_lerp dquat_slerp".split())
+
+
+# differential harnesses that take more than ~100 s of their 200 s quick cap on an idle machine (one of them timed out in one of three full quick runs): thorough tier only, cap 600 s
+SLOW = set("dmat3_look_to_rh dvec4_refract dquat_from_rotation_arc daffine2_to_scale_angle_translation dvec3_refract".split())
 
 
 class DDrawer:
@@ -183,6 +187,11 @@ def diff_harnesses(tier, cfg):
             if f"{T.lower()}_{name}" in HEAVY:
                 skipped.append(f"{T}::{name}: two-tree formula exceeds the caps of cvc5, z3 and the SAT reachability run (not claimed)")
                 continue
+            if f"{T.lower()}_{name}" in SLOW:
+                if tier == "quick":
+                    skipped.append(f"{T}::{name}: decided in the thorough tier only (more than 100 s)")
+                    continue
+                h.cap = 600
             hs.append(h)
     harnesses.skipped = skipped
     return hs
